@@ -172,6 +172,37 @@ def rule_d(ctx):
             else:
                 ctx.bad('d', 'pn_expand_guard_on_candidate', ex, br.where(), 'a window-wrap guard of PacketNumber::expand does not test `candidate`: %s' % D.render(br.desc)[:160])
     ctx.check(cand >= 1, 'd', 'pn_expand_guard_on_candidate', ex, ex.where(), '%d candidate window guards' % cand, 'PacketNumber::expand lost a candidate-vs-window guard')
+    # RFC 9000 A.3 shape: the decoding window is centred on `expected`: (expected - hwin, expected + hwin], hwin = win / 2
+    dx = describer(F, ex)
+    hw = local_defs_desc(ctx, ex, 'hwin')
+    okh = len(hw) == 1 and hw[0][0] == 'bin' and hw[0][1] == 'Div' and D.has_const(hw[0][3], 2) and D.has_const(hw[0][2], 1) and D.calls_in(hw[0]) <= {'PacketNumber::len'}
+    ctx.check(okh, 'd', 'pn_expand_half_window', ex, ex.where(), 'hwin = (1 << nbits) / 2', 'hwin is no longer half the truncation window: ' + ' | '.join(D.render(x)[:80] for x in hw))
+
+    def is_local(d, name):
+        return d[0] == 'local' and len(d) > 2 and d[2] == name
+    up = lo = wn = None
+    for br in brs:
+        o, a, b = relation_on(br.desc, True)
+        if o == 'Lt' and is_local(b, 'candidate') and a[0] == 'bin' and a[1] == 'Add' and {True} == {is_local(x, 'hwin') or (x[0] == 'param' and x[2] == 'expected') for x in (a[2], a[3])} and D.has_param(a, name='expected') and 'hwin' in D.render(a):
+            up = br
+        if o == 'Lt' and is_local(b, 'candidate') and is_local(a, 'win'):
+            wn = br
+    for br in branches(F, ex, stop_named=True):
+        d = br.desc
+        if d[0] == 'call' and d[1] == 'Option::is_some_and' and D.has_call(d[3][0], 'u64::checked_sub'):
+            cs = [x for x in walk(d[3][0]) if x[0] == 'call' and x[1] == 'u64::checked_sub'][0]
+            okc = cs[3][0][0] == 'param' and cs[3][0][2] == 'expected' and is_local(cs[3][1], 'hwin')
+            cl = [b for b in F.code_bodies('quinn_proto') if b.kind == 'closure' and F.root_of(b).id == ex.id]
+            okr = any(x == ('bin', 'Le', ('upvar', 'candidate'), ('param', x[3][1] if x[3][0] == 'param' else 0, x[3][2] if x[3][0] == 'param' else '')) for b in cl for _, x in ret_descs(F, b) if x[0] == 'bin' and len(x) >= 4 and isinstance(x[3], tuple) and len(x[3]) >= 3)
+            if okc and okr:
+                lo = br
+    ctx.check(lo is not None, 'd', 'pn_expand_lower_edge', ex, ex.where(), 'expected.checked_sub(hwin).is_some_and(|x| candidate <= x)', 'the lower window edge is no longer `candidate <= expected - hwin`')
+    ctx.check(up is not None, 'd', 'pn_expand_upper_edge', ex, ex.where(), 'candidate > expected + hwin', 'the upper window edge is no longer `candidate > expected + hwin`')
+    ctx.check(wn is not None, 'd', 'pn_expand_no_underflow', ex, ex.where(), 'candidate > win', 'the `candidate > win` underflow guard changed')
+    # corrections: +win on the lower edge, -win on the upper edge, candidate otherwise
+    rds = flat(ret_descs(F, ex)[0][1]) if len(ret_descs(F, ex)) == 1 else [x for _, x in ret_descs(F, ex)]
+    kinds = sorted((x[1] if x[0] == 'bin' and x[1] in ('Add', 'Sub') and D.has_call(x[3], 'PacketNumber::len') else 'plain') for x in rds)
+    ctx.check(kinds == ['Add', 'Sub', 'plain'], 'd', 'pn_expand_corrections', ex, ex.where(), 'candidate + win | candidate - win | candidate', 'expand returns %s' % kinds)
 
 
 def rule_e(ctx):
